@@ -19,7 +19,7 @@ func init() {
 			"(R2b) the early-return guard's truth table is exactly: killed∧¬zombie, or user∧state≠running∧¬zombie; (R3) a dead-letter emission is dominated by a condition that separates the root, so the root cannot feed itself; " +
 			"(R4) the guard actor republishes a received dead letter exactly once on the event stream; (R5) both terminal paths of an actor whose mailbox may be paused resume it (parked mail drains to dead letters); " +
 			"(R6) every failing exit of the remoting send reports the envelope, and the report emits one dead letter. " +
-			"(R7) the mailbox cache inside a reference is written only with the mailbox of a context found registered at the reference's path (never with a fallback). NOT decided: exactly-once accounting across racing sends and transitions; staleness of a correctly filled cache across name reuse.",
+			"(R7) the mailbox cache inside a reference is written only with the mailbox of a context found registered at the reference's path (never with a fallback). (R8 = C01.R2) a message accepted by Enqueue is never stranded in an idle mailbox; (R9) the registry removal routine, which deletes by path, is called only from the dying actor's own cleanup step with its own context. NOT decided: exactly-once accounting across racing sends and transitions; staleness of a correctly filled cache across name reuse.",
 		Assumptions: []string{"the dead-letter emission is TellSelf(ves.DeathLetterEvent) on the system (root) context"},
 		Rules: []Rule{
 			{ID: "C03.R1", Min: 2, Desc: "mailbox lookup is total", Fn: c03Lookup},
@@ -28,6 +28,8 @@ func init() {
 			{ID: "C03.R4", Min: 1, Desc: "guard republishes dead letters once", Fn: c03Republish},
 			{ID: "C03.R5", Min: 2, Desc: "parked mail surfaces: Resume on both terminal paths", Fn: c03Parked},
 			{ID: "C03.R6", Min: 2, Desc: "remote send failure is reported as a dead letter", Fn: c03RemoteFailure},
+			{ID: "C03.R8", Min: 2, Desc: "no accepted message is stranded in an idle mailbox (C01.R2 release-then-recheck)", Fn: c01Release},
+			{ID: "C03.R9", Min: 1, Desc: "a path's registry entry is removed only by the termination of the actor registered there", Fn: c03RegistryOwner},
 			{ID: "C03.R7", Min: 1, Desc: "a reference caches only the mailbox of the actor registered at its path", Fn: c03CacheSound},
 		},
 	})
@@ -534,5 +536,53 @@ func c03CacheSound(p *Program, r *Report) {
 	}
 	if n == 0 {
 		r.Unresolved("no write of the reference's mailbox cache")
+	}
+}
+
+
+// c03RegistryOwner: the registry maps a path to the context whose mailbox receives the mail for that path; lookups that miss
+// fall back to the root mailbox, where the guard swallows the message. The removal routine deletes by path, so a call from
+// anywhere but the dying actor's own cleanup step (e.g. "roll back" after a rejected duplicate spawn) erases the entry of a
+// live actor. Who-may-call: every call of the removal routine lies in the cleanup step (or a helper only it calls) and
+// passes the handler's own context; the registry is deleted from nowhere else except the future bookkeeping.
+func c03RegistryOwner(p *Program, r *Report) {
+	lc := lcOrFail(p, r)
+	if lc == nil {
+		return
+	}
+	if lc.RemoveRegistry == nil {
+		r.Unresolved("registry removal routine")
+		return
+	}
+	cg := p.igx(lc.Cleanup)
+	n := 0
+	for fn := range p.All {
+		if !p.inModule(fn) {
+			continue
+		}
+		for _, b := range fn.Blocks {
+			for _, in := range b.Instrs {
+				c := callOf(in)
+				if c == nil || c.StaticCallee() != lc.RemoveRegistry {
+					continue
+				}
+				n++
+				ok := cg.owns(p, fn)
+				why := "the call lies in the kill chain's cleanup step"
+				if ok && len(c.Args) > 1 {
+					o := p.origins(c.Args[1])
+					if !allContain(o, "field:"+lc.HandlerT.Obj().Name()+".") {
+						ok = false
+						why = "the removed context is not the dying actor's own (" + strings.Join(o, "|") + ")"
+					}
+				} else if !ok {
+					why = "called outside the dying actor's cleanup step: the routine deletes by path, so this erases whatever actor is registered there"
+				}
+				r.Check(ok, "registry removal in "+fnName(fn), in.Pos(), why)
+			}
+		}
+	}
+	if n == 0 {
+		r.Unresolved("no call of the registry removal routine")
 	}
 }
